@@ -265,6 +265,17 @@ def analyse_case_folding(ctx, fi, loops, spec, seqp):
                 literal = isinstance(cv, ast.Constant) and isinstance(cv.value, bytes) and set(cv.value) >= set(b'acgt')
                 ok = before and (lower_of_nucs or literal) and not owners[1].orelse
                 found = f'guarded by `{u(t)}` with container {u(cv)}'
+        if not ok and found == 'conditional' and len(owners) == 1 and isinstance(owners[0], ast.If) and not owners[0].orelse:
+            # classified single-test guards (closed table; anything else is outside the vocabulary)
+            t = u(owners[0].test).replace(' ', '')
+            sufficient = {f'not{hay}.isupper()', f'{hay}!={hay}.upper()', f'{hay}.upper()!={hay}', f'not({hay}=={hay}.upper())'}
+            insufficient = {f'{hay}.islower()': 'bytes.islower() is True only when ALL cased bytes are lower case: mixed-case (soft-masked) input is not folded',
+                            f'{hay}[0:1].islower()': 'looks at the first byte only', f'{hay}[:1].islower()': 'looks at the first byte only',
+                            f'{hay}.isalpha()': 'unrelated to case'}
+            if t in sufficient:
+                ok, found = before, f'guarded by `{u(owners[0].test)}` (true whenever any byte is lower case)'
+            elif t in insufficient:
+                ok, found = False, f'guarded by `{u(owners[0].test)}`: {insufficient[t]}'
         if not ok and found == 'conditional':
             raise Undecided('find_kmers: upper() of the haystack is under an unrecognised condition')
     rep.add('K6', fi.site(up), 'the haystack is upper-cased whenever it contains a lower-case nucleotide, before either search', ok,
@@ -506,15 +517,18 @@ def analyse_accumulators(ctx):
             sorted_unique = isinstance(inner, ast.Call) and u(inner.func) in ('np.flatnonzero', 'numpy.flatnonzero') \
                 and [u(a) for a in inner.args] == [f'self.{store_attr}']
         else:
-            rep.require(isinstance(v, ast.Name), f'{ci.qualname}.signature: returns {u(v)}, expected a local array')
-            defs = assigns_to(sig.node, v.id)
-            rep.require(len(defs) >= 1, f'{ci.qualname}.signature: {v.id} undefined')
-            dv = def_value(defs[-1])
+            if isinstance(v, ast.Name):
+                defs = assigns_to(sig.node, v.id)
+                rep.require(len(defs) >= 1, f'{ci.qualname}.signature: {v.id} undefined')
+                dv = def_value(defs[-1])
+                vid = v.id
+            else:
+                defs, dv, vid = [r], v, None      # array expression returned directly: nothing can sort it in place afterwards
             found = u(dv)
             from_set = isinstance(dv, ast.Call) and u(dv.func) in ('np.fromiter', 'numpy.fromiter', 'np.array', 'np.unique') and dv.args \
                 and (u(dv.args[0]) in (f'self.{store_attr}', f'list(self.{store_attr})', f'sorted(self.{store_attr})'))
             dtype_ok = isinstance(dv, ast.Call) and u(get_arg(dv, 1, 'dtype')) == 'self._dtype'
-            sorts = [s for s in sig.node.body if isinstance(s, ast.Expr) and isinstance(s.value, ast.Call) and u(s.value.func) == f'{v.id}.sort'
+            sorts = [s for s in sig.node.body if vid is not None and isinstance(s, ast.Expr) and isinstance(s.value, ast.Call) and u(s.value.func) == f'{vid}.sort'
                      and not s.value.args and not s.value.keywords and defs[-1].lineno < s.lineno < r.lineno]
             resort = isinstance(dv, ast.Call) and (u(dv.func) == 'np.unique' or (dv.args and u(dv.args[0]).startswith('sorted(')))
             sorted_unique = from_set and (bool(sorts) or resort)
@@ -574,7 +588,12 @@ def analyse_dtype_table(ctx):
     ok = len(body) == 1 and isinstance(body[0], ast.Return) and isinstance(body[0].value, ast.BinOp) and isinstance(body[0].value.op, ast.Pow) \
         and is_const(body[0].value.left, 4) and u(body[0].value.right) == fn.params()[0]
     rep.add('K8', fn.site(), 'nkmers(k) == 4 ** k', ok, expected='4 ** k', found=u(body[0]) if body else None, stmt='nkmers')
-    # K10
+    check_seq_to_bytes(ctx)
+
+
+def check_seq_to_bytes(ctx):
+    """K10: seq_to_bytes is the identity on the byte content of every accepted sequence type (shared with C07)."""
+    rep, m = ctx.rep, ctx.model
     seqmod = m.module('gambit.seq')
     rep.require('SEQ_TYPES' in seqmod.assigns and isinstance(seqmod.assigns['SEQ_TYPES'], ast.Tuple), 'gambit.seq.SEQ_TYPES is not a tuple literal')
     members = [u(e) for e in seqmod.assigns['SEQ_TYPES'].elts]
@@ -654,6 +673,10 @@ VARIANTS = [
     V('dtype row k <= 9 -> u2', 'B', _K, "\telif k <= 8:\n\t\treturn np.dtype('u2')", "\telif k <= 9:\n\t\treturn np.dtype('u2')", 'K8'),
     V('dtype row not minimal (k<=4 -> u2)', 'B', _K, "\tif k <= 4:\n\t\treturn np.dtype('u1')", "\tif k <= 4:\n\t\treturn np.dtype('u2')", 'K8'),
     V('upper-casing removed', 'B', _K, "\t\tif char in nucs_lower:\n\t\t\thaystack = haystack.upper()\n\t\t\tbreak", "\t\tif char in nucs_lower:\n\t\t\tbreak", 'K6'),
+    V('islower() guard (mixed-case input not folded; seeded C01a/C06a)', 'B', _K, "\tnucs_lower = NUCLEOTIDES.lower()\n\tfor char in haystack:\n\t\tif char in nucs_lower:\n\t\t\thaystack = haystack.upper()\n\t\t\tbreak\n",
+      "\tif haystack.islower():\n\t\thaystack = haystack.upper()\n", 'K6'),
+    V('E: not isupper() guard', 'E', _K, "\tnucs_lower = NUCLEOTIDES.lower()\n\tfor char in haystack:\n\t\tif char in nucs_lower:\n\t\t\thaystack = haystack.upper()\n\t\t\tbreak\n",
+      "\tif not haystack.isupper():\n\t\thaystack = haystack.upper()\n"),
     V('upper-casing guard looks at upper-case letters', 'B', _K, "\tnucs_lower = NUCLEOTIDES.lower()", "\tnucs_lower = NUCLEOTIDES", 'K6'),
     V('dense accumulator returns intp dtype', 'B', _C, "return np.flatnonzero(self.array).astype(self._dtype)", "return np.flatnonzero(self.array)", 'K7'),
     V('set accumulator uses wrong k for dtype', 'B', _C, "\t\tself.set = set()\n\t\tself._dtype = index_dtype(self.k)", "\t\tself.set = set()\n\t\tself._dtype = index_dtype(8)", 'K7'),
